@@ -53,6 +53,7 @@ def handlers : List (String × Handler) :=
     ("c20.files", C20.filesHandler),
     ("c17.expand", C17.handlerExpand),
     ("c17.lang", C17.handlerLang),
+    ("c17.rep", C17.handlerRep),
     ("c01.answers", C01.handler),
     ("c03.answers", C01.handler),
     ("c04.answers", C01.handler),
